@@ -3,10 +3,51 @@
 // A violation prints "C12-VIOLATION ..." and traps; libFuzzer saves the input as crash-<sha1>, which is the replay
 // file (run the binary with the file as its only argument).
 #include "apivm.hpp"
+#include <csignal>
+#include <fcntl.h>
+
+// ---- structured enumeration phase (VERIF_ENUM=shard/nshards): runs inside LLVMFuzzerInitialize, i.e. before libFuzzer installs its own
+// signal handlers; the program being executed is kept in a static buffer and written out as crash-enum-<pid> if the process dies
+static uint8_t g_cur[256];
+static size_t g_cur_n = 0;
+static char g_art[512];
+static void note_program(const uint8_t *p, size_t n) {
+    g_cur_n = n < sizeof g_cur ? n : sizeof g_cur;
+    memcpy(g_cur, p, g_cur_n);
+}
+static void write_current() {
+    static int done = 0;
+    if (done || !g_cur_n || !g_art[0]) return;
+    done = 1;
+    int fd = open(g_art, O_WRONLY | O_CREAT | O_TRUNC, 0644);
+    if (fd >= 0) { ssize_t w = write(fd, g_cur, g_cur_n); (void)w; close(fd); }
+}
+static void on_signal(int sig) {
+    write_current();
+    apivm::dump_fragment();
+    signal(sig, SIG_DFL);
+    raise(sig);
+}
+extern "C" void __sanitizer_set_death_callback(void (*)(void));
 
 extern "C" int LLVMFuzzerInitialize(int *, char ***) {
     apivm::init_from_env();
     atexit(apivm::dump_fragment);
+    if (const char *e = getenv("VERIF_ENUM")) {
+        int shard = 0, nshards = 1;
+        sscanf(e, "%d/%d", &shard, &nshards);
+        const char *dir = getenv("VERIF_ENUM_ART");
+        snprintf(g_art, sizeof g_art, "%s/crash-enum-%ld", dir ? dir : ".", (long)getpid());
+        for (int sg : {SIGABRT, SIGSEGV, SIGBUS, SIGFPE, SIGILL, SIGTERM}) signal(sg, on_signal);  // SIGTERM: the driver's CPU budget ran out
+        __sanitizer_set_death_callback(write_current);
+        uint64_t seed = getenv("VERIF_SEED") ? strtoull(getenv("VERIF_SEED"), nullptr, 10) : 1;
+        int payloads = getenv("VERIF_ENUM_PAYLOADS") ? atoi(getenv("VERIF_ENUM_PAYLOADS")) : 16;
+        uint64_t n = apivm::enumerate_programs(shard, nshards, seed, payloads, note_program);
+        g_cur_n = 0;
+        fprintf(stderr, "ENUM done: %llu programs\n", (unsigned long long)n);
+        apivm::dump_fragment();
+        _exit(0);  // enumeration-only process
+    }
     return 0;
 }
 
